@@ -13,6 +13,7 @@ import (
 	"os/exec"
 	"path/filepath"
 	"runtime"
+	"runtime/debug"
 	"runtime/pprof"
 	"sort"
 	"strconv"
@@ -327,7 +328,37 @@ func runSolo(ch *Check, c *Ctx, out string) {
 			os.Exit(2)
 		}
 	}
-	ch.Solo(c)
+	func() {
+		// a panic inside the scenario: when the innermost non-runtime frame is zlint's, the library failed under the
+		// public-API history the scenario drives (a violation, with the site); when it is the harness's, the scenario
+		// is broken (inconclusive, the driver's gates fail the run without a verdict)
+		defer func() {
+			r := recover()
+			if r == nil {
+				return
+			}
+			stack := string(debug.Stack())
+			site, inZlint := "", false
+			for _, l := range strings.Split(stack, "\n") {
+				t := strings.TrimSpace(l)
+				if strings.HasPrefix(t, "github.com/zmap/zlint/") {
+					site, inZlint = strings.SplitN(strings.TrimPrefix(t, "github.com/zmap/zlint/v3/"), "(", 2)[0], true
+					break
+				}
+				if strings.HasPrefix(t, "verif/") {
+					site = strings.SplitN(t, "(", 2)[0]
+					break
+				}
+			}
+			fmt.Fprintf(os.Stderr, "VERIF-SOLO-PANIC %v at %s\n%s\n", r, site, stack)
+			if inZlint {
+				c.R.Violate(Violation{Property: c.Prop, Key: c.Prop + "|panic-in-scenario|" + site, What: fmt.Sprintf("zlint panicked during the own-process scenario (a sequence of public API calls): %v at %s", r, site), Tier: c.Tier, Seed: c.Seed, Case: -2, Extra: map[string]any{"stack": stack}})
+			} else {
+				c.R.Inconcl(fmt.Sprintf("own-process scenario panicked in the harness: %v at %s", r, site))
+			}
+		}()
+		ch.Solo(c)
+	}()
 	if out != "" {
 		if err := c.R.WriteFile(out); err != nil {
 			fmt.Fprintln(os.Stderr, err)
